@@ -98,6 +98,25 @@ def run_case(case, prefix=None):
         n0, t0 = len(med.log), sim.now
         kind = call[0]
         used0 = len(fault.used)
+        if kind in ("read", "listen_cycle"):
+            # what an application does between two transmissions: take a received (ACK) payload out of the RX FIFO, or
+            # listen for a while and come back.  Not judged themselves (C10 / C08 do that); the calls that follow are.
+            try:
+                if kind == "read":
+                    if ptx.available():
+                        ptx.read()
+                else:
+                    ptx.listen = True
+                    sim.advance(300 * US)
+                    ptx.listen = False
+            except Exception as e:  # noqa: BLE001
+                res.fail(exc_signature(P + "/raises", e), "%s: %r" % (kind, e))
+                break
+            if not T.txf:
+                last_failed = None  # leaving RX mode with ACK payloads enabled flushes the TX FIFO (documented)
+            res.label("between-calls-" + kind)
+            sim.advance(200 * US)
+            continue
         if kind == "resend":
             items = None
             fr = 0
@@ -137,6 +156,17 @@ def run_case(case, prefix=None):
         if dur > bound:
             res.fail(P + "/exceeds-time-bound", "%s call %d took %.2f ms, bound %.2f ms" % (kind, ci, dur / 1e6, bound / 1e6))
         entries = tx_entries(med, n0)
+        # "acknowledged by the peer": an attempt whose ACK the peer put on air and the medium did not lose, but which this
+        # radio did not take because the driver left it unable to hear ACKs (pipe 0 closed, or not on the TX address)
+        if needs_ack_call:
+            for e in entries:
+                if e["fate"] == "D" and not e["acked"] and any(a["ack"] and a.get("ack_of") == e["n"] for a in med.log[n0:]):
+                    deaf = "pipe 0 is closed" if not T.reg[2] & 1 else (
+                        "pipe 0 is on %s, TX address %s" % (T.pipe_addr(0).hex(), bytes(T.areg[0x10][:T.aw()]).hex())
+                        if T.pipe_addr(0) != bytes(T.areg[0x10][:T.aw()]) else None)
+                    if deaf:
+                        res.fail(P + "/peer-acknowledged-but-not-heard", "%s call %d: the peer acknowledged, the radio could not hear it: %s" % (kind, ci, deaf))
+                        break
         if prev_failed:
             res.nontrivial = True
         if needs_ack_call and any(s != "D" for s in fault.used[used0:]):
@@ -302,6 +332,29 @@ def _enum_hist(depth, drv="full", peer="full"):
     return gen
 
 
+def _enum_interleaved(depth, drv="full", peer="full"):
+    """every history of 2..depth send/resend calls with ONE read() or listen round trip inserted at every position after
+    the first call, every outcome word; ACK payloads loaded (so that read() finds something) and plain auto-ack"""
+    def gen():
+        calls_alpha = [("send", True), ("send", False), ("resend", True), ("resend", False)]
+        for mode, ackpl in (("ackpl", ["a1", "b2b2", "c3c3c3"]), ("aa", [])):
+            for d in range(2, depth + 1):
+                for hist in itertools.product(calls_alpha, repeat=d):
+                    if hist[0][0] == "resend":
+                        continue
+                    for word in itertools.product("DPA", repeat=d):
+                        base = []
+                        for i, (k, so) in enumerate(hist):
+                            base.append(["send", "%02x%02x" % (0x20 + i, 0x66), False, 0, so] if k == "send" else ["resend", so])
+                        for pos in range(1, d):
+                            for ins in (["read"], ["listen_cycle"]):
+                                if ins[0] == "read" and mode != "ackpl":
+                                    continue
+                                yield {"drv": drv, "peer": peer, "rate": 1, "arc": 0, "ard": 1, "mode": mode, "listening": True,
+                                       "ackpl": ackpl, "word": "".join(word), "default": "D", "calls": base[:pos] + [ins] + base[pos:]}
+    return gen
+
+
 def strategy(drv="full", peer="full"):
     from hypothesis import strategies as st
     buf = st.binary(min_size=1, max_size=32).map(bytes.hex)
@@ -320,7 +373,7 @@ def strategy(drv="full", peer="full"):
         "ackpl": st.lists(st.binary(min_size=1, max_size=32).map(bytes.hex), max_size=3),
         "word": st.text(alphabet="DDPA", max_size=64),
         "default": st.sampled_from(["D", "D", "P", "A"]),
-        "calls": st.lists(st.one_of(send, send, sendl, resend), min_size=1, max_size=6),
+        "calls": st.lists(st.one_of(send, send, send, sendl, sendl, resend, resend, st.just(["read"]), st.just(["listen_cycle"])), min_size=1, max_size=6),
         "mcu": st.fixed_dictionaries({"spi": st.sampled_from([8, 20, 100, 400]), "jit": st.sampled_from([0, 30]),
                                       "seed": st.integers(0, 999)}),
         "pre": st.one_of(st.just([]), st.just([]), st.lists(st.sampled_from(PRES), min_size=1, max_size=3).map(lambda ls: [o for l in ls for o in l])),
@@ -331,7 +384,9 @@ def parts(tier):
     if tier == "quick":
         return [Part("enum-arc<=1-fr<=1", "enum", _enum((0, 1), (0, 1)), exhaustive=True),
                 Part("enum-histories-depth4", "enum", _enum_hist(4), exhaustive=True),
+                Part("enum-histories-with-read-or-listen-between-depth3", "enum", _enum_interleaved(3), exhaustive=True),
                 Part("generated", "gen", strategy, n=1500)]
     return [Part("enum-arc<=2-fr<=1", "enum", _enum((0, 1, 2), (0, 1)), exhaustive=True),
             Part("enum-histories-depth5", "enum", _enum_hist(5), exhaustive=True),
+            Part("enum-histories-with-read-or-listen-between-depth4", "enum", _enum_interleaved(4), exhaustive=True),
             Part("generated", "gen", strategy, n=60000)]
